@@ -511,6 +511,111 @@ def reference_remap(root, visit):
     return out
 
 
+# --------------------------------------------------------------------------- custom enter / exit callbacks
+
+ENTERS = [['dflt'], ['skipKind', 't'], ['skipKind', 'd'], ['skipKind', 'l'], ['skipKind', 'f'], ['rev'],
+          ['skipKey', 0], ['skipKey', 'a'], ['skipKey', None], ['asList'], ['depthLimit', 0], ['depthLimit', 1],
+          ['depthLimit', 2]]
+EXITS = [['dflt'], ['count'], ['keys'], ['pathLen'], ['keyOld'], ['oldKind']]
+
+
+def same_atom(a, b):
+    return type(a) is type(b) and a == b
+
+
+def own_exit(old_or_new, new_items):
+    """what default_exit is documented to do, written independently: a container of the given object's class"""
+    kd = kind_of(old_or_new)
+    if kd == 'd':
+        return dict(new_items)
+    return KINDS[kd](v for _k, v in new_items)
+
+
+def make_enter(spec):
+    """a user-written enter callback (does not call boltons' default_enter)"""
+    name = spec[0]
+    lit = dec(spec[1]) if name == 'skipKey' else None
+
+    def en(path, key, value):
+        kd = kind_of(value)
+        if kd is None:
+            return value, False
+        if name == 'skipKind' and kd == spec[1]:
+            return value, False
+        if name == 'depthLimit' and len(path) >= spec[1]:
+            return value, False
+        items = children(value)
+        if name == 'rev':
+            return KINDS[kd](), reversed(items)
+        if name == 'skipKey':
+            return KINDS[kd](), [(k, c) for k, c in items if not same_atom(k, lit)]
+        if name == 'asList':
+            return [], iter(items)
+        return KINDS[kd](), items
+    return en
+
+
+def make_exit(spec):
+    name = spec[0]
+
+    def ex(path, key, old_parent, new_parent, new_items):
+        if name == 'dflt':
+            return own_exit(new_parent, new_items)
+        if name == 'count':
+            return len(new_items)
+        if name == 'keys':
+            return [k for k, _v in new_items]
+        if name == 'pathLen':
+            return len(path)
+        if name == 'keyOld':
+            return (key, len(old_parent), own_exit(new_parent, new_items))
+        if name == 'oldKind':
+            return own_exit(old_parent, new_items)
+        raise AssertionError(name)
+    return ex
+
+
+def reference_remap_custom(root, visit, enter, exit_):
+    """the bottom-up recursive rebuild with custom enter / exit callbacks, for acyclic object graphs: a container is
+    rebuilt once (remembered by identity) and its rebuilt counterpart reused wherever it is referenced again"""
+    memo = {}
+
+    def value(v, path, key):
+        # `path` is the path of the parent (what enter / exit / visit of this item get)
+        if id(v) in memo and kind_of(v) is not None:
+            return memo[id(v)]
+        new_parent, items = enter(path, key, v)
+        if items is False:
+            return v
+        below = path if v is root else path + (key,)
+        new = []
+        for k, c in list(items):
+            nc = value(c, below, k)
+            r = visit(below, k, nc)
+            if r is False:
+                continue
+            if r is True:
+                r = (k, nc)
+            new.append(r)
+        out = exit_(path, key, v, new_parent, new)
+        memo[id(v)] = out
+        return out
+    new_parent, items = enter((), None, root)
+    if items is False:
+        raise Unbuildable('root not traversed')
+    return value(root, (), None)
+
+
+def enter_tok(spec):
+    if len(spec) == 1:
+        return spec[0]
+    if spec[0] == 'skipKind':
+        return 'skipKind:' + LETTER[spec[1]]
+    if spec[0] == 'depthLimit':
+        return 'depthLimit:%d' % spec[1]
+    return spec[0] + ':' + atom_s(dec(spec[1]))
+
+
 class UndefinedRebuild(Exception):
     """the recursive rebuild has no answer: a reference back to a tuple / frozenset that is still being rebuilt"""
 
@@ -708,6 +813,8 @@ class C08(Property):
             yield c
         for c in self.edge_cases():
             yield c
+        for c in self.custom_families():
+            yield c
         for c in self.adversarial(rng, 120):
             yield c
         for c in self.exhaustive_trees():
@@ -851,6 +958,36 @@ class C08(Property):
                         yield mk(nodes, [0], p, reraise=rr)
                         yield mk(nodes, [0], p, mode='Q', reraise=rr)
                         yield mk(nodes, [0], [[0, ['isInt'], ['incr']]] + p, reraise=rr)
+
+    def custom_families(self):
+        """custom enter / exit callbacks (mode E): fixed shapes x every enter x every exit x programs"""
+        shapes = [
+            # {'a': [1, (None, 2)], None: (), 'b': {'x': {7, 8}}}
+            ([['d', [['a', [1]], [None, [3]], ['b', [4]]]], ['l', [1, [2]]], ['t', [None, 2]], ['t', []],
+              ['d', [['x', [5]]]], ['s', [7, 8]]], [0]),
+            # [(1, [2, {'k': ()}]), [], {0: 'z'}]
+            ([['l', [[1], [5], [6]]], ['t', [1, [2]]], ['l', [2, [3]]], ['d', [['k', [4]]]], ['t', []], ['l', []],
+              ['d', [[0, 'z']]]], [0]),
+            # (frozenset({1, 2}), [[[5]]], {'a': {'a': {'a': 1}}})
+            ([['t', [[1], [2], [5]]], ['f', [1, 2]], ['l', [[3]]], ['l', [[4]]], ['l', [5]],
+              ['d', [['a', [6]]]], ['d', [['a', [7]]]], ['d', [['a', 1]]]], [0]),
+            # x = [1]; [x, (x,), {'k': x}]   (shared: oracle-only)
+            ([['l', [[1], [2], [3]]], ['l', [1]], ['t', [[1]]], ['d', [['k', [1]]]]], [0]),
+            # [(), ()]: CPython has one empty tuple - it is rebuilt (exited) once
+            ([['l', [[1], [2]]], ['t', []], ['t', []]], [0]),
+        ]
+        progs = [([], 1), ([[0, ['isInt'], ['incr']]], 1), ([[0, ['isNone'], ['drop']]], 1),
+                 ([[0, ['keyIs', 0], ['drop']]], 1), ([[0, ['always'], ['valDepth']]], 1),
+                 ([[0, ['isCont'], ['valLen']]], 1), ([[0, ['isNone'], ['raise', 'KeyError']]], 0),
+                 ([[0, ['isNone'], ['raise', 'IndexError']]], 1), ([[0, ['isKind', 't'], ['setKey', 'k']]], 1)]
+        for nodes, root in shapes:
+            for en in ENTERS:
+                for ex in EXITS:
+                    for prog, rr in progs:
+                        c = self.mk(nodes, root, prog, mode='E', reraise=rr, default=1 if not prog else 0)
+                        c['enter'] = en
+                        c['exit'] = ex
+                        yield c
 
     def tree_values(self, depth, atoms):
         """all (nodes-free) nested literal values of the given depth bound, as python-ish specs"""
@@ -1021,10 +1158,14 @@ class C08(Property):
         p_share = rng.choice([0.0, 0.1, 0.3])
         p_back = rng.choice([0.0, 0.0, 0.15, 0.3])
         nodes, root = self.random_graph(rng, depth, width, p_share, p_back)
-        mode = 'Q' if rng.random() < 0.25 else 'M'
+        r = rng.random()
+        mode = 'Q' if r < 0.25 else ('E' if r < 0.37 else 'M')
         prog = self.random_prog(rng)
         default = 1 if (mode == 'M' and not prog and rng.random() < 0.7) else 0
         c = self.mk(nodes, root, prog, mode=mode, reraise=0 if rng.random() < 0.2 else 1, default=default)
+        if mode == 'E':
+            c['enter'] = rng.choice(ENTERS)
+            c['exit'] = rng.choice(EXITS)
         if rng.random() < 0.04:
             c['warm'] = self.random_prog(rng)
         return c
@@ -1104,6 +1245,12 @@ class C08(Property):
         mode = case['mode']
         if mode == 'Q' and not self.research_queries_root():
             mode = 'Qn'
+        if mode == 'E':
+            if not tree or any(kd in 'sf' and any(is_ref(o) for o in items) for kd, items in nodes):
+                # custom callbacks are modelled at tree level (reraise_visit=False semantics); a container inside
+                # a set may be rebuilt as something unhashable by a custom exit (TypeError): oracle-only
+                return None
+            mode = 'E~%s~%s' % (enter_tok(case['enter']), case['exit'][0])
         toks = [mode, str(case['reraise']), str(tree), prog_tok(prog), 'R' + obj_tok(r)]
         toks += [node_tok(nd) for nd in nodes]
         return ' '.join(toks)
@@ -1141,6 +1288,7 @@ class C08(Property):
         before = labelled(root)
         in_containers = containers_of(root)
         prog = case['prog']
+        self._custom = {'enter': case.get('enter', ['dflt']), 'exit': case.get('exit', ['dflt'])}
         hits = {}
         obs = {}
         try:
@@ -1185,7 +1333,20 @@ class C08(Property):
         fn = make_fn(prog, hits)
         obs = {}
         try:
-            if mode == 'M':
+            if mode == 'E':
+                kw = {}
+                if self._custom['enter'][0] != 'dflt':
+                    kw['enter'] = make_enter(self._custom['enter'])
+                if self._custom['exit'][0] != 'dflt':
+                    kw['exit'] = make_exit(self._custom['exit'])
+                if not reraise:
+                    kw['reraise_visit'] = False
+                res = remap(root, fn, **kw) if prog or not default else remap(root, **kw)
+                obs['res'] = labelled(res)
+                if light:
+                    return obs
+                obs['plain'] = plain(res) if not has_cycle(res) else None
+            elif mode == 'M':
                 if default:
                     res = remap(root)
                 elif reraise:
@@ -1276,7 +1437,11 @@ class C08(Property):
             if obs['exc'] in raise_names(case['prog']):
                 h = '!ValueError'        # the model's token for "the visit callback raised"
             m = ' M=' + h if case['mode'] == 'M' else ''
+            if case['mode'] == 'E':
+                return 'G=%s R=%s' % (h, h)
             return 'H=%s%s T=%s R=%s' % (h, m, h if tree else '-', h if tree else '-')
+        if case['mode'] == 'E':
+            return 'G=%s R=%s' % (obs['plain'], obs['plain'])
         if case['mode'] == 'M':
             h = obs['res']
             t = obs['plain'] if tree else '-'
@@ -1316,6 +1481,8 @@ class C08(Property):
         self.bump('root:' + rk)
         self._nt = n_cont >= 2
         raising = bool(case['reraise']) and has_act(prog, 'raise')
+        if case['mode'] == 'E':
+            return self.oracle_custom(case, obs, root, cyclic, raising)
         if case['mode'] == 'M':
             if 'exc' in obs:
                 self.bump('exc:' + obs['exc'])
@@ -1396,6 +1563,32 @@ class C08(Property):
                                         'segment is read as the member\'s enumeration index)' if into_set == 2 else ''))
         return set_fail
 
+    def oracle_custom(self, case, obs, root, cyclic, raising):
+        """remap with custom enter / exit callbacks = the recursive rebuild with the same callbacks"""
+        self.bump('enter:' + case['enter'][0])
+        self.bump('exit:' + case['exit'][0])
+        if cyclic:
+            return None
+        prog = case['prog']
+        fn = make_fn(prog) if case['reraise'] else self.swallowing(make_fn(prog))
+        try:
+            exp = labelled(reference_remap_custom(root, fn, make_enter(case['enter']), make_exit(case['exit'])))
+        except Unbuildable:
+            # enter does not traverse the root: remap hands the root to visit and then raises TypeError - unless
+            # visit drops it, then the root itself comes back.  Outside the statement (no verdict); the model
+            # follows the code (correspondence)
+            self.bump('custom_root_not_traversed')
+            return None
+        except VISIT_EXC as e:
+            exp = '!' + exc_name(e)
+        except TypeError:
+            return None                 # the callbacks produced something unhashable inside a set: no verdict
+        got = '!' + obs['exc'] if 'exc' in obs else obs['res']
+        if got != exp:
+            return Failure('custom_callbacks', 'remap with enter=%s exit=%s returned %s, the recursive rebuild with the '
+                           'same callbacks gives %s' % (case['enter'], case['exit'], got, exp))
+        return None
+
     @staticmethod
     def swallowing(fn):
         def g(p, k, v):
@@ -1445,6 +1638,11 @@ class C08(Property):
             # simplified, never removed: a defect that keeps state between calls must stay reproducible from
             # the case alone (without the warm-up call it would fail only in a process that ran other cases)
             yield dict(case, warm=[])
+        if case['mode'] == 'E':
+            if case['enter'] != ['dflt']:
+                yield dict(case, enter=['dflt'])
+            if case['exit'] != ['dflt']:
+                yield dict(case, exit=['dflt'])
         for i in range(len(prog)):
             yield dict(case, prog=prog[:i] + prog[i + 1:], default=0)
         for i, (kd, items) in enumerate(nodes):
